@@ -315,7 +315,56 @@ def rule_r6(ctx):
                 rr.ok(what, sample={"rule": "C13-R6", "case": case, "form": got, "verdict": want})
             else:
                 rr.fail(f"C13-R6|Assign|{case}|index-arithmetic", f"PendingAssign.assign_tuple_list ({t.site}): {case} element reads {got}; expected {want}", where=t.site, what=what)
-        # the temporary is tuple(value), evaluated once and shared by all subscripts
+        # the temporary of every (also nested) pattern is a tuple() snapshot of its source
+        for t in iter_tnodes(pr.result):
+            if t.kind == "NamedExpr" and getattr(t, "func", "") == "assign_tuple_list":
+                tgt = t.fields.get("target")
+                if isinstance(tgt, TNode) and isinstance(tgt.fields.get("id"), Fresh):
+                    v = t.fields.get("value")
+                    key = ("snapshot", t.site)
+                    if key not in seen:
+                        seen.add(key)
+                        rr.instances += 1
+                    what = f"destructure|snapshot|{t.site}|{short_ctx(pr, 60)}"
+                    if isinstance(v, TNode) and v.kind == "Call" and _is_call_named(v, "tuple"):
+                        rr.ok(what)
+                    else:
+                        from ..tmpl import show
+
+                        rr.fail(
+                            "C13-R6|Assign|snapshot|not-tuple",
+                            f"PendingAssign.assign_tuple_list ({t.site}): the temporary of a (nested) pattern is bound to `{show(v, maxdepth=3)[:60]}` instead of tuple(<source>): the source is indexed, not iterated (`k, (m, n) = 0, {{1: 'x', 0: 'y'}}` reads the dict by key; generators fail) [context: {short_ctx(pr, 80)}]",
+                            where=t.site, what=what,
+                        )
+    return rr
+
+
+def rule_r8(ctx):
+    rr = RuleResult("C13-R8", "every augmented assignment tries the in-place method first (hasattr dispatch), whatever the operands look like")
+    rr.floor = 3
+    inplace = set(INPLACE.values())
+    for pr in _aug_paths(ctx).ok_paths():
+        node = pr.extra["node"]
+        tk = kinds_label(node.fields["target"].kinds) if "target" in node.fields else "?"
+        rr.instances += 1
+        what = f"AugAssign|{tk}|dispatch|{short_ctx(pr, 80)}"
+        found = False
+        for t in iter_tnodes(pr.result):
+            if t.kind == "IfExp":
+                test = t.fields.get("test")
+                body = t.fields.get("body")
+                if isinstance(test, TNode) and test.kind == "Call" and _is_call_named(test, "hasattr") and isinstance(body, TNode) and body.kind == "Call":
+                    f = body.fields.get("func")
+                    if isinstance(f, TNode) and f.kind == "Attribute" and isinstance(f.fields.get("attr"), Cst) and f.fields["attr"].value in inplace:
+                        found = True
+        if found:
+            rr.ok(what)
+        else:
+            rr.fail(
+                f"C13-R8|AugAssign|{tk}|no-inplace-dispatch",
+                f"PendingAugAssign ({tk} target): in the context [{short_ctx(pr, 110)}] the template rebinds `target op value` without trying target.__iop__ first: aliases of a mutable target no longer observe the update (`lst *= 2`)",
+                what=what,
+            )
     return rr
 
 
@@ -339,4 +388,4 @@ def rule_r7(ctx):
     return rr
 
 
-RULES = [("C13-R1", rule_r1), ("C13-R2", rule_r2), ("C13-R3", rule_r3), ("C13-R4", rule_r4), ("C13-R5", rule_r5), ("C13-R6", rule_r6), ("C13-R7", rule_r7)]
+RULES = [("C13-R1", rule_r1), ("C13-R2", rule_r2), ("C13-R3", rule_r3), ("C13-R4", rule_r4), ("C13-R5", rule_r5), ("C13-R6", rule_r6), ("C13-R7", rule_r7), ("C13-R8", rule_r8)]
